@@ -287,12 +287,81 @@ def run_plan(rel, data, plan, flag, mode, flag_how="assign"):
 
 def run_case(case):
     data = open(os.path.join(treeenv.FIXTURES, case["fixture"]), "rb").read()
+    if "unopenable" in case:
+        return [v for v in unopenable_names()[1] if v["case"] == case]
     kind, arg = case["plan"]
     plan = (kind, tuple(arg) if isinstance(arg, list) else arg)
     return run_plan(case["fixture"], data, plan, case["flag"], case["mode"], case.get("flag_how", "assign"))[1]
 
 
+def unopenable_names():
+    """The earliest exit path: the name cannot be opened at all (missing file, a directory, an empty file, a file that is
+    not a SunVox container), given as str and as Path, with both initial settings, plainly and inside the caller's own
+    override block.  The load must raise, and the setting must be the caller's -- inside the handler and afterwards."""
+    import pathlib
+    import tempfile
+
+    import rv.errors as E
+    from rv.readers.reader import read_sunvox_file
+
+    vs, n = [], 0
+    d = tempfile.mkdtemp(prefix="rv-c18-names-")
+    empty = os.path.join(d, "empty.sunvox")
+    junk = os.path.join(d, "junk.sunvox")
+    open(empty, "wb").close()
+    with open(junk, "wb") as fh:
+        fh.write(b"RIFF\x10\0\0\0WAVEfmt ")
+    names = {"missing": os.path.join(d, "no-such-file.sunvox"), "directory": d, "empty-file": empty, "not-a-container": junk,
+             "missing-dir": os.path.join(d, "no", "such", "dir", "x.sunsynth")}
+    try:
+        for what, name in names.items():
+            for as_path in (False, True):
+                for flag in (True, False):
+                    for how in ("assign", "context"):
+                        n += 1
+                        case = {"unopenable": [what, as_path, flag, how]}
+                        key = {"name": what, "given_as": "Path" if as_path else "str", "flag": flag, "flag_how": how}
+                        E.RAISE_CONTROLLER_VALUE_ERRORS = flag
+                        outer = None
+                        if how == "context":
+                            E.RAISE_CONTROLLER_VALUE_ERRORS = not flag
+                            outer = E.override_raise_controller_value_errors(flag)
+                            outer.__enter__()
+                        in_handler = None
+                        try:
+                            read_sunvox_file(pathlib.Path(name) if as_path else name)
+                            outcome = "returned"
+                        except BaseException as e:
+                            outcome = "raised:" + type(e).__name__
+                            in_handler = E.RAISE_CONTROLLER_VALUE_ERRORS
+                        after = E.RAISE_CONTROLLER_VALUE_ERRORS
+                        if outer is not None:
+                            outer.__exit__(None, None, None)
+                            if E.RAISE_CONTROLLER_VALUE_ERRORS is not (not flag):
+                                vs.append(C.viol("callers-own-override-not-unwound", key, {"outcome": outcome}, case))
+                        E.RAISE_CONTROLLER_VALUE_ERRORS = True
+                        if outcome == "returned" and what in ("missing", "directory", "missing-dir"):
+                            vs.append(C.viol("unopenable-name-loads", key, {}, case))
+                        if after is not flag or (in_handler is not None and in_handler is not flag):
+                            vs.append(C.viol("strictness-flag-not-restored", dict(key, outcome=outcome.split(":")[0]),
+                                             {"before": flag, "in_handler": in_handler, "after": after, "outcome": outcome}, case))
+    finally:
+        E.RAISE_CONTROLLER_VALUE_ERRORS = True
+        for f in (empty, junk):
+            os.unlink(f)
+        os.rmdir(d)
+    return n, vs[:8]
+
+
 def _task(t):
+    if t[0] == "unopenable":
+        r = C.new_result()
+        n, vs = unopenable_names()
+        r["evals"] = n
+        r["violations"] = vs
+        C.count(r, "unopenable", n)
+        r["sample"] = {"unopenable": ["missing", True, True, "assign"]}
+        return r
     rel, every_byte, lo, hi = t
     r = C.new_result()
     data = open(os.path.join(treeenv.FIXTURES, rel), "rb").read()
@@ -335,6 +404,7 @@ def run(ctx):
         nplans += n
         for lo in range(0, n, 250):
             tasks.append((rel, every, lo, min(n, lo + 250)))
+    tasks.append(("unopenable",))
     from rvmc.runner import rotate
 
     agg = C.Agg()
